@@ -51,4 +51,9 @@ CHECKS = {
         technique='exhaustive namespace enumeration + Hypothesis op-list histories vs dict reference model',
         text='Namespace encode/decode round trip enumerated exhaustively over all tuples of <=3 components of <=2 chars from an adversarial alphabet (30 754 namespaces) plus random unicode tuples; metadata store compared after every step of generated update histories (user, policy, batched, missing-trial deltas; RAM and SQL; raw RPC and client API) with a last-writer-wins dict model. Sampling, not proof: absence of violations beyond the enumerated alphabet is not established.',
         note='trusts the harness dict model, protobuf Any packing and the bootstrap; the policy used for algorithm writes is a harness policy writing under its own root'),
+    'C16': dict(
+        category=EXPL,
+        technique='independent membership oracle vs SearchSpace.contains on exhaustive small-space products + Hypothesis single-edit near-miss cases; builder validity oracle; independent dfs/bfs walk',
+        text='Membership of flat spaces is compared with a vizier-free oracle over ~9e4 exhaustively enumerated assignments of 30 small spaces plus thousands of generated single-edit near-miss / coerced-member cases (wrong types, bools vs True/False strings, ints as floats, missing/extra keys, non-finite and huge values); builder calls (add_*_param, ParameterConfig.factory) are judged against the statement\'s list of invalid definitions and the normal form of what was built; conditional spaces must refuse contains; SequentialParameterBuilder (dfs and bfs, with skips) is compared with an independent walk of the JSON spec; clients.Study.add_trial must raise ValueError exactly for non-members and store nothing.',
+        note='trusts the coercion table of DESIGN C16 (bool = int = True/False strings, integral float = int, str never numeric), harness/spaces.py builders; add_trial exercised in-process on RAM'),
 }
